@@ -679,3 +679,55 @@ VARIANTS += [
       "leaf_rewards = arm_to_rewards[arm][leaf_index]",
       "rewards_of_arm = arm_to_rewards[arm]\nleaf_rewards = rewards_of_arm[leaf_index]", benign=True),
 ]
+
+# ---------------------------------------------------------------------------------------------------- C13
+VARIANTS += [
+    V("c13-m1", "C13", "greedy", "_EpsilonGreedy._copy_arms",
+      "self.arm_to_count[cold_arm] = deepcopy(self.arm_to_count[warm_arm])", "", "R13.2",
+      why="count of the warm arm not copied: the next partial_fit divides the copied sum by a fresh count"),
+    V("c13-m2", "C13", "linear", "_Linear._copy_arms",
+      "self.arm_to_model[cold_arm] = deepcopy(self.arm_to_model[warm_arm])",
+      "self.arm_to_model[cold_arm] = self.arm_to_model[warm_arm]", "R13.1",
+      why="cold and warm arm share one regression object"),
+    V("c13-m3", "C13", "base_mab", "BaseMAB._get_cold_arm_to_warm_arm",
+      "for arm in self.trained_arms:\n    if arm in self.arms:\n        "
+      "arm_to_distance[arm] = distance_from_to[cold_arm][arm]",
+      "for arm in self.arms:\n    if arm in self.arms:\n        "
+      "arm_to_distance[arm] = distance_from_to[cold_arm][arm]", "R13.3",
+      why="untrained arms can be chosen as warm-start source"),
+    V("c13-m4", "C13", "base_mab", "BaseMAB._get_cold_arm_to_warm_arm",
+      "if closest_distance <= distance_threshold:\n    new_cold_arm_to_warm_arm[cold_arm] = closest_arm",
+      "if closest_distance < distance_threshold:\n    new_cold_arm_to_warm_arm[cold_arm] = closest_arm", "R13.3",
+      why="arm exactly at the threshold distance is not warm started"),
+    V("c13-m5", "C13", "base_mab", "BaseMAB.cold_arms",
+      "return [arm for arm in self.arms if not self.arm_to_status[arm][IS_TRAINED] and "
+      "(not self.arm_to_status[arm][IS_WARM])]",
+      "return [arm for arm in self.arms if not self.arm_to_status[arm][IS_TRAINED]]", "R13.4",
+      why="warm-started arms are warm started again by the next call"),
+    V("c13-m6", "C13", "ucb", "_UCB1._copy_arms",
+      "self.arm_to_mean[cold_arm] = deepcopy(self.arm_to_mean[warm_arm])",
+      "self.arm_to_mean[warm_arm] = deepcopy(self.arm_to_mean[cold_arm])", "R13.1",
+      why="the trained arm is overwritten by the cold arm's mean"),
+    V("c13-m7", "C13", "base_mab", "BaseMAB._set_arms_as_trained",
+      "if not is_partial:\n    self.arm_to_status[arm][IS_WARM] = False\n    "
+      "self.arm_to_status[arm][WARM_STARTED_BY] = None",
+      "self.arm_to_status[arm][IS_WARM] = False\nself.arm_to_status[arm][WARM_STARTED_BY] = None", "R13.4",
+      why="partial_fit forgets that an arm was warm started"),
+    V("c13-m8", "C13", "softmax", "_Softmax._copy_arms", "self._expectation_operation()", "", "R13.2",
+      why="soft-max shares of the warm-started arm not computed"),
+    V("c13-m9", "C13", "base_mab", "BaseMAB._warm_start",
+      "cold_arm_to_warm_arm = self._get_cold_arm_to_warm_arm(arm_to_features, distance_quantile)\n"
+      "self._copy_arms(cold_arm_to_warm_arm)",
+      "cold_arm_to_warm_arm = self._get_cold_arm_to_warm_arm(arm_to_features, distance_quantile)\n"
+      "self._copy_arms({w: c for c, w in cold_arm_to_warm_arm.items()})", None,
+      why="mapping inverted: trained arms receive the cold arms' state"),
+    V("c13-b1", "C13", "greedy", "_EpsilonGreedy._copy_arms",
+      "for cold_arm, warm_arm in cold_arm_to_warm_arm.items():\n"
+      "    self.arm_to_sum[cold_arm] = deepcopy(self.arm_to_sum[warm_arm])\n"
+      "    self.arm_to_count[cold_arm] = deepcopy(self.arm_to_count[warm_arm])\n"
+      "    self.arm_to_expectation[cold_arm] = deepcopy(self.arm_to_expectation[warm_arm])",
+      "for target, source in cold_arm_to_warm_arm.items():\n"
+      "    self.arm_to_count[target] = deepcopy(self.arm_to_count[source])\n"
+      "    self.arm_to_sum[target] = deepcopy(self.arm_to_sum[source])\n"
+      "    self.arm_to_expectation[target] = deepcopy(self.arm_to_expectation[source])", benign=True),
+]
